@@ -45,6 +45,16 @@ CLAIMED = {
         text="Exploration: every expansion of every generated run is attributed to its round; at most one per round, under the pulled cell, only if it was a leaf, new cells pristine; expansion happens if and only if the reference rule says so (either reading accepted where the published text is ambiguous).",
         note="c1*delta <= 1/2; t+(t) vs t+(t+1) and VHCT variance before/after the reward are both accepted; ceil arguments within 1e-9 accept both sides.",
         ref="4/C06"),
+    "C07": dict(
+        technique="property-based testing (Hypothesis) with a harness-kept ledger of (cell, point, reward) and per-learner / per-phase scores; the recommendation is judged against the ledger, with reward laws weighted towards negative, tied and constant values",
+        text="Exploration: for every generated run the harness records which cell produced every evaluated point and with what reward (and which learner / validation phase each reward belongs to, through recording learner subclasses); get_last_point() must return an evaluated candidate whose ledger value is maximal for the algorithm's documented criterion.",
+        note="Queries that hit the open findings D11a/D11b (no candidate exists yet) are counted as aborted, not judged. GPO validation rounds are located with the reference schedule. Means to rel. 1e-9.",
+        ref="4/C07"),
+    "C08": dict(
+        technique="property-based testing (Hypothesis): the expansions recorded inside every pull and the harness ledger are judged against reference predicates of the SOO / StoSOO / DOO selection rules (tree state reconstructed at the moment of each expansion)",
+        text="Exploration: per pull of every generated history the set of leaves at the start of the call is rebuilt, each recorded expansion is replayed on it and checked (leaf, evaluated, no unevaluated leaf above, best of its depth / best overall with the reference b or reward+delta, sweep monotonicity), and the cell handed out is checked (evaluation caps, depth cap, first-unevaluated-in-top-down-order or max-b).",
+        note="Depth caps hold the budget and T <= n (so the depth-cap clause cannot bind: SOO/StoSOO are breadth-first in practice, DESIGN 2.3); DOO's default delta re-derived from the cells of each depth on the tree the decision was taken on; tolerance 1e-12 relative.",
+        ref="4/C08"),
 }
 
 NOT_YET = "check not built yet in this round (planned in DESIGN.md section 4); property-based testing applies"
